@@ -11,6 +11,8 @@ class Harness:
     def __init__(self, patches=None, shim_map=None, timeout_ms=60000, extra_builtins=None, max_witnesses=6,
                  max_violations=12, solver_opts=None):
         self.loader = _loader.Loader(shim_map=shim_map, patches=patches, extra_builtins=extra_builtins)
+        import logging
+        logging.disable(logging.CRITICAL)      # the repo logs tracebacks of handled exceptions; irrelevant here
         self.ctx = core.Ctx(timeout_ms=timeout_ms, solver_opts=solver_opts)
         core.set_ctx(self.ctx)
         self.paths = 0
